@@ -22,6 +22,8 @@ define_language! {
         Sym(Symbol),
         T(AppliedId, AppliedId, AppliedId) = "t",
         H(AppliedId, Bind<AppliedId>) = "h",
+        // a child BEFORE a plain slot of the node (g has them the other way round)
+        Gr(AppliedId, Slot) = "gr",
     }
 }
 
@@ -140,6 +142,19 @@ impl Naming {
         }
     }
 
+    /// makes the abstract slot `s` denote the real slot `x` from now on (used for pattern-local names:
+    /// a pattern may spell its slots like any slot, e.g. like an internal slot of a class)
+    pub fn force(&mut self, s: S, x: Slot) {
+        if let Some(old) = self.fwd.insert(s, x) {
+            self.rev.remove(&old);
+        }
+        if let Some(prev) = self.rev.insert(x, s) {
+            if prev != s {
+                self.fwd.remove(&prev);
+            }
+        }
+    }
+
     pub fn slot(&mut self, s: S) -> Slot {
         if let Some(x) = self.fwd.get(&s) {
             return *x;
@@ -224,6 +239,7 @@ impl SimLang for LS {
             "t" => LS::T(nul(), nul(), nul()),
             "h" => LS::H(nul(), Bind { slot: nm.slot(t.kids[1].binders[0]), elem: nul() }),
             "g" => LS::G(s(0), nul()),
+            "gr" => LS::Gr(nul(), s(0)),
             "lam" => LS::Lam(Bind { slot: nm.slot(t.kids[0].binders[0]), elem: nul() }),
             "let" => LS::Let(Bind { slot: nm.slot(t.kids[0].binders[0]), elem: nul() }, nul()),
             "lam2" => LS::Lam2(Bind {
@@ -248,6 +264,7 @@ impl SimLang for LS {
             LS::T(_, _, _) => ("t", 0, vec![], vec![vec![], vec![], vec![]]),
             LS::H(_, b) => ("h", 0, vec![], vec![vec![], vec![b.slot]]),
             LS::G(s, _) => ("g", 0, vec![*s], vec![vec![]]),
+            LS::Gr(_, s) => ("gr", 0, vec![*s], vec![vec![]]),
             LS::Lam(b) => ("lam", 0, vec![], vec![vec![b.slot]]),
             LS::Let(b, _) => ("let", 0, vec![], vec![vec![b.slot], vec![]]),
             LS::Lam2(b) => ("lam2", 0, vec![], vec![vec![b.slot, b.elem.slot]]),
